@@ -10,6 +10,9 @@ func assertFunctions(fns []*funcDef) error {
 
 	nameMap := make(map[string]bool)
 	for _, funcDef := range fns {
+		if funcDef == nil {
+			return errFunctionDefIsEmpty
+		}
 		if _, exists := nameMap[funcDef.Name]; exists {
 			return errDuplicateFunction
 		}
@@ -33,6 +36,11 @@ func assertFunctions(fns []*funcDef) error {
 
 // assertStepDef validates the step definition.
 func assertStepDef(def *stepDef, funcs []*funcDef) error {
+	// A null entry in the list of steps is not a step.
+	if def == nil {
+		return errStepDefIsEmpty
+	}
+
 	// Step name is required.
 	if def.Name == "" {
 		return errStepNameRequired
@@ -49,6 +57,9 @@ func assertStepDef(def *stepDef, funcs []*funcDef) error {
 		calledFunc := def.Call.Function
 		calledFuncDef := &funcDef{}
 		for _, funcDef := range funcs {
+			if funcDef == nil {
+				continue
+			}
 			if funcDef.Name == calledFunc {
 				calledFuncDef = funcDef
 				break
